@@ -2,8 +2,21 @@ package logger
 
 import (
 	"context"
+	"fmt"
 	"log/slog"
 )
+
+// errorString returns err.Error(). An Error method that panics (typically a nil pointer of an
+// error type whose method dereferences its receiver) is reported in the text, as fmt does,
+// instead of propagating out of the handler.
+func errorString(err error) (s string) {
+	defer func() {
+		if recover() != nil {
+			s = fmt.Sprint(err)
+		}
+	}()
+	return err.Error()
+}
 
 // Options is the common options for all handlers.
 type Options struct {
